@@ -191,7 +191,7 @@ class PromotionRef(Oracle):
             res = world.last_res[t]
             cost = None
             if self.kind == "cost_promotion":
-                cost = world.spec["cost"][t][r - 1]  # total cost to reach level r (cumulative table)
+                cost = world.spec["cost"][t - world.spec.get("id0", 0)][r - 1]  # total cost to reach level r (cumulative table)
             self.rungs[s].setdefault(r, []).append([t, res[world.metric], cost, False])
         if d != exp:
             return [(f"promotion:decision:{exp}-expected-got-{d}",
